@@ -23,7 +23,7 @@ import (
 	"verif/mc/ev"
 )
 
-type Only struct{ Path, Method, VariantID, AccEnc, Origin, Via string }
+type Only struct{ Path, Method, VariantID, Combo, Via string }
 
 type Config struct {
 	Name       string    `json:"name"`
@@ -32,8 +32,7 @@ type Config struct {
 	Login      string    `json:"login"`
 	Password   string    `json:"password"`
 	Variants   []Variant `json:"variants"`
-	AccEnc     []string  `json:"accept_encoding"`
-	Origins    []string  `json:"origins"`
+	Combos     []Combo   `json:"header_combos"`
 	ExtraMeth  []string  `json:"extra_methods"`
 	ProbePaths []string  `json:"probe_paths"`
 	Only       *Only     `json:"only"`
@@ -61,8 +60,7 @@ type Record struct {
 	Method    string `json:"method"`
 	Reg       bool   `json:"registered_method"`
 	Variant   string `json:"variant"`
-	AccEnc    string `json:"ae"`
-	Origin    string `json:"origin"`
+	Combo     string `json:"combo"`
 	Status    int    `json:"status"`
 	Body      string `json:"body"`
 	WWWAuth   string `json:"www_auth"`
@@ -107,7 +105,7 @@ type ProbeResult struct {
 }
 
 func reqKey(r *Record) string {
-	return strings.Join([]string{r.Via, r.Path, r.Method, r.Variant, r.AccEnc, r.Origin}, "\x00")
+	return strings.Join([]string{r.Via, r.Path, r.Method, r.Variant, r.Combo}, "\x00")
 }
 
 func runProbe(testbin, scratch string, cfg Config) *ProbeResult {
@@ -202,6 +200,15 @@ func main() {
 		cors = append(cors, "http://allowed.example")
 	}
 	scan := ScanRepo(ev.Repo())
+	combos := buildCombos()
+	// every request header the router-wide middlewares read must be a dimension of the product
+	reads := ScanHeaderReads(ev.Repo())
+	for _, hr := range reads {
+		if _, ok := VariedHeaders[hr.Name]; !ok {
+			ev.Fatal("%s:%d reads request header %q (%s), which the C20 request product does not vary: add it to VariedHeaders in mc/cmd/c20/variants.go",
+				hr.File, hr.Line, hr.Name, hr.How)
+		}
+	}
 	var probePaths []string
 	for _, p := range []string{"/debug/pprof/", "/debug/pprof/cmdline", "/debug/vars", "/debug/requests", "/debug/events",
 		"/metrics", "/ready", "/", "/favicon.ico", "/api", "/ready/", "//ready", "/READY", "/ready%2f", "/./ready", "/x/../ready"} {
@@ -242,8 +249,7 @@ func main() {
 				for _, c := range creds {
 					name := fmt.Sprintf("%s-cors%d-%s", mode, indexOf(cors, co), c.name)
 					cfgs = append(cfgs, Config{Name: name, Mode: mode, CorsOrigin: co, Login: c.login, Password: c.pass,
-						Variants: Alphabet(c.login, c.pass, r.Thorough()), AccEnc: []string{"", "gzip"},
-						Origins: []string{"", "http://evil"}, ExtraMeth: []string{"OPTIONS", "HEAD", "TRACE", "PUT", "DELETE", "PATCH", "GET", "POST"},
+						Variants: alphabetWithCombos(c.login, c.pass, r.Thorough(), combos), Combos: combos.All, ExtraMeth: []string{"OPTIONS", "HEAD", "TRACE", "PUT", "DELETE", "PATCH", "GET", "POST"},
 						ProbePaths: probePaths})
 				}
 			}
@@ -354,6 +360,14 @@ func main() {
 		r.Extra["flagged_cases_by_class"] = fl
 		r.Extra["listening_tcp_ports_besides_main_and_fake_db"] = otherPorts
 		r.Extra["configurations"] = len(cfgs)
+		var hr []string
+		for _, x := range reads {
+			hr = append(hr, fmt.Sprintf("%s:%d %s (%s)", x.File, x.Line, x.Name, x.How))
+		}
+		r.Extra["request_headers_read_by_router_wide_middleware"] = hr
+		r.Extra["header_combinations"] = map[string]int{"all": len(combos.All), "with_every_authorization_value": len(combos.Base),
+			"full_product_with_class_representatives": len(combos.Full), "with_right_credentials": len(combos.Single),
+			"with_unregistered_methods": len(combos.Cors), "through_tcp_listener": len(combos.TCP)}
 		vc := map[string]int{}
 		for _, v := range cfgs[0].Variants {
 			vc[v.Class]++
@@ -372,6 +386,12 @@ func dedupSorted(l []string) []string {
 		}
 	}
 	return out
+}
+
+func alphabetWithCombos(login, pass string, thorough bool, cs comboSets) []Variant {
+	vs := Alphabet(login, pass, thorough)
+	assignCombos(vs, cs, thorough)
+	return vs
 }
 
 func indexOf(l []string, s string) int {
@@ -424,6 +444,7 @@ func replayConfig(path string) Config {
 	c := d.Replay.Config
 	c.Name = "replay"
 	v := d.Replay.Variant
+	v.Combos, v.TCPCombos, v.ProbeCombos = []int{0}, []int{0}, []int{0}
 	c.Variants = []Variant{v}
 	o := d.Replay.Only
 	c.Only = &o
@@ -439,6 +460,15 @@ func partialDecodeRight(h, login, pass string) bool {
 	}
 	b, err := base64.StdEncoding.DecodeString(parts[1])
 	return err != nil && string(b) == login+":"+pass
+}
+
+// headerNames("Origin=http://evil & Access-Control-Request-Method=GET") = "Origin+Access-Control-Request-Method"
+func headerNames(combo string) string {
+	var names []string
+	for _, p := range strings.Split(combo, " & ") {
+		names = append(names, strings.SplitN(p, "=", 2)[0])
+	}
+	return strings.Join(names, "+")
 }
 
 // bodies written by the authentication layer itself (http.Error adds the newline)
@@ -491,8 +521,15 @@ func judge(r *ev.Run, pr *ProbeResult, walked, walkedTpl, abandoned map[string]b
 	mk := func(rec *Record, v Variant) any {
 		c := cfg
 		c.Variants, c.ProbePaths, c.Only = nil, nil, nil
+		c.Combos = nil
+		for _, cb := range cfg.Combos {
+			if cb.ID == rec.Combo {
+				c.Combos = []Combo{cb}
+			}
+		}
+		v.Combos, v.TCPCombos, v.ProbeCombos = []int{0}, []int{0}, []int{0}
 		return map[string]any{"config": c, "variant": v,
-			"only":     Only{rec.Path, rec.Method, rec.Variant, rec.AccEnc, rec.Origin, rec.Via},
+			"only":     Only{rec.Path, rec.Method, rec.Variant, rec.Combo, rec.Via},
 			"observed": rec}
 	}
 	tplOf := func(rec *Record) string {
@@ -501,10 +538,23 @@ func judge(r *ev.Run, pr *ProbeResult, walked, walkedTpl, abandoned map[string]b
 		}
 		return rec.Path
 	}
-	absentThrough := map[string]bool{} // route|method let through without any credentials
+	absentThrough := map[string]bool{}   // route|method let through without any credentials
+	rejectedPlain := map[string]bool{}   // route|method|variant rejected when no other header is sent
+	minimalBypass := map[string]string{} // route|method|variant -> smallest header combination with which it is let through
 	for i := range pr.Reqs {
 		rec := &pr.Reqs[i]
-		if rec.Phase == "deny" && rec.Variant == "absent" && rec.Reg && rec.DHandler > 0 {
+		if rec.T == "req" && rec.Phase != "probe" && rec.Phase != "allow" {
+			k := tplOf(rec) + " " + rec.Method + " " + rec.Variant
+			if rec.Combo == "(none)" && rec.DHandler == 0 {
+				rejectedPlain[k] = true
+			}
+			if rec.Combo != "(none)" && rec.DHandler > 0 {
+				if cur, ok := minimalBypass[k]; !ok || strings.Count(rec.Combo, "&") < strings.Count(cur, "&") || (strings.Count(rec.Combo, "&") == strings.Count(cur, "&") && rec.Combo < cur) {
+					minimalBypass[k] = rec.Combo
+				}
+			}
+		}
+		if rec.Phase == "deny" && rec.Variant == "absent" && rec.Reg && rec.DHandler > 0 && rec.Combo == "(none)" {
 			absentThrough[tplOf(rec)+" "+rec.Method] = true
 		}
 	}
@@ -545,10 +595,15 @@ func judge(r *ev.Run, pr *ProbeResult, walked, walkedTpl, abandoned map[string]b
 			ev.Fatal("probe %s: transport error for %s %s variant %s via %s: %s", cfg.Name, rec.Method, rec.Path, rec.Variant, rec.Via, rec.Err)
 		}
 		r.Distinct(tpl + "|" + rec.Method + "|" + rec.Variant)
-		where := fmt.Sprintf("[%s %s] %s %s (route %s) Authorization=%s(%s) Accept-Encoding=%q Origin=%q", cfg.Name, rec.Via,
-			rec.Method, rec.Path, tpl, rec.Variant, v.Class, rec.AccEnc, rec.Origin)
+		where := fmt.Sprintf("[%s %s] %s %s (route %s) Authorization=%s(%s) other headers: %s", cfg.Name, rec.Via,
+			rec.Method, rec.Path, tpl, rec.Variant, v.Class, rec.Combo)
 		entered := rec.DHandler > 0
 		dbTouched := rec.DReg > 0
+		if rec.Method == "OPTIONS" && rec.Status == 204 && !entered && rec.DReg == 0 && rec.DDB == 0 {
+			// a preflight answered by the CORS layer itself: nothing behind the credential check was reached
+			r.Outcome("options_answered_204_before_any_handler/" + v.Class)
+			continue
+		}
 		if rec.DDB > 0 && rec.Phase == "deny" {
 			// attributed only if the re-runs (same request alone, 3 times) all show it again
 			rr := pr.Reruns[reqKey(rec)]
@@ -609,6 +664,9 @@ func judge(r *ev.Run, pr *ProbeResult, walked, walkedTpl, abandoned map[string]b
 				r.Outcome(v.Class + "->LET_THROUGH")
 				class := "auth_accepts_" + v.Family
 				switch {
+				case rec.Combo != "(none)" && rejectedPlain[tpl+" "+rec.Method+" "+rec.Variant]:
+					// the same request without the other headers is rejected: those headers switch the check off
+					class = "credential_check_bypassed_by_request_headers:" + headerNames(minimalBypass[tpl+" "+rec.Method+" "+rec.Variant])
 				case absentThrough[tpl+" "+rec.Method]:
 					class = "route_reachable_without_credentials:" + rec.Method + ":" + tpl
 				case (rec.Status == 401 || rec.Status == 400) && isAuthBody(rec.Body):
@@ -629,7 +687,7 @@ func judge(r *ev.Run, pr *ProbeResult, walked, walkedTpl, abandoned map[string]b
 		}
 		if i%997 == 0 {
 			r.Sample(map[string]any{"config": cfg.Name, "via": rec.Via, "route": tpl, "method": rec.Method, "variant": rec.Variant,
-				"class": v.Class, "ae": rec.AccEnc, "origin": rec.Origin, "status": rec.Status, "handler_entered": entered})
+				"class": v.Class, "other_headers": rec.Combo, "status": rec.Status, "handler_entered": entered})
 		}
 	}
 	// phase-level: nothing at all may have reached a handler or the database while only rejectable requests were sent
